@@ -110,6 +110,13 @@ def enumerate_hierarchies(tier: str):
                     h = tuple(Cls(privs[i], tuple(graph[i]), ("p1",) if i in definers else ()) for i in range(n))
                     if interesting(h):
                         yield h, name
+    # abstract public classes (ABC next to the other bases): same expectations as for any other class
+    for graph in ([(), (0,)], [(), (0,), (1,)], [(), (), (0, 1)], [(), (0,), (0,), (1, 2)]):
+        n = len(graph)
+        for privs in itertools.product((False, True), repeat=n - 1):
+            h = tuple(Cls((*privs, False)[i], tuple(graph[i]), ("m1",) if i < n - 1 else ("m2",), ("abstract",) if i == n - 1 else ()) for i in range(n))
+            if interesting(h):
+                yield h, "abstract"
     # extras on a private base of a simple chain / fork
     for extras in itertools.chain.from_iterable(itertools.combinations(["private_method", "property", "static", "nested", "classmethod"], k) for k in (1, 2, 5)):
         for graph in ([(), (0,)], [(), (0,), (1,)], [(), (), (0, 1)]):
@@ -128,7 +135,8 @@ def render(h: tuple[Cls, ...], u: str, split: bool | str) -> dict[str, str]:
 
     main, priv = [], []
     for i, c in enumerate(h):
-        bases = "(" + ", ".join(cname(b) for b in c.bases) + ")" if c.bases else ""
+        base_names = [cname(b) for b in c.bases] + (["ABC"] if "abstract" in c.extras else [])
+        bases = "(" + ", ".join(base_names) + ")" if base_names else ""
         body = []
         for m in c.methods:
             body.append((f"    @property\n" if m.startswith("p") else "") + f"    def {m}{u}(self) -> {TYPES[i]}:\n        ...\n")
@@ -144,8 +152,9 @@ def render(h: tuple[Cls, ...], u: str, split: bool | str) -> dict[str, str]:
             body.append(f"    class Nest{u}x{i}:\n        def nm{u}(self) -> int:\n            ...\n")
         text = f"class {cname(i)}{bases}:\n" + ("\n".join(body) if body else "    pass\n")
         (priv if (split is True and c.private) else main).append((i, text))
+    abc_import = "from abc import ABC\n\n\n" if any("abstract" in c.extras for c in h) else ""
     if split is not True:
-        return {f"h{u}.py": "\n\n".join(t for _, t in main) + "\n"}
+        return {f"h{u}.py": abc_import + "\n\n".join(t for _, t in main) + "\n"}
     # with split, private classes must not depend on public classes of the main module (import cycle): caller guarantees
     imports = "".join(f"from {PKG}._hb{u} import {cname(i)}\n" for i, _ in priv)
     return {f"_hb{u}.py": "\n\n".join(t for _, t in priv) + "\n", f"h{u}.py": imports + "\n\n" + "\n\n".join(t for _, t in main) + "\n"}
@@ -231,7 +240,7 @@ def run(rep: Report, tier: str, seed: int) -> None:
             units.append((u3, h, family + ":same", "same"))
     rep.rule = (
         f"all class hierarchies of <= {3 if tier == 'quick' else 4} classes (each public/private, ordered base lists of size <= 2 over earlier classes, method subsets of {{m1,m2}} with a distinct return type per definer) that have a consistent MRO and a public class with a private base;"
-        " 4-5 class chains, forks, diamonds, ladders under all privacy assignments x 3 method placements; a property defined by every non-empty subset of the classes of a 2/3-chain, a fork and a diamond under all privacy assignments; private bases with private method / property / static / class method / nested class; private bases in a second module; private bases that carry the same class names in every module; the 'extras' family also under naming conversion; one hierarchy per module; distinct = distinct hierarchy"
+        " 4-5 class chains, forks, diamonds, ladders under all privacy assignments x 3 method placements; abstract public classes (ABC next to the other bases) over a chain, a fork and a diamond; a property defined by every non-empty subset of the classes of a 2/3-chain, a fork and a diamond under all privacy assignments; private bases with private method / property / static / class method / nested class; private bases in a second module; private bases that carry the same class names in every module; the 'extras' family also under naming conversion; one hierarchy per module; distinct = distinct hierarchy"
     )
 
     def label(h, family) -> str:
